@@ -1,6 +1,6 @@
 """Unit `thread_local_cache`: ThreadLocalCache<R> under R1 (RefCell/LocalKey erased), R2, R3 (LocalKey::with inlined)."""
 from extract.rules import R, R4, R5, R1_TYPES
-from contracts.units.engine_common import (COMMON, wf_pre, get_ensures, incr_ensures, evict_requires, evict_ensures, insert_ensures, CFG_FRAME, insertm_requires, insertm_ensures, memloop_spec, insert_result_ensures)
+from contracts.units.engine_common import (COMMON, SYNC_SPEC, wf_pre, store_pre, get_ensures, incr_ensures, evict_requires, evict_ensures, insert_ensures, CFG_FRAME, insertm_requires, insertm_ensures, memloop_spec, insert_result_ensures)
 from contracts.units.global_cache import UTILS_FNS, SCORE_STUBS
 
 T = 'cachelito-core/src/thread_local_cache.rs'
@@ -18,7 +18,8 @@ def fn(name, **kw):
 
 UNIT = dict(
     name='thread_local_cache',
-    items=COMMON + UTILS_FNS + [SCORE_STUBS,
+    prelude=['prelude.rs', 'prelude_float.rs'],
+    items=COMMON + UTILS_FNS + SCORE_STUBS + [SYNC_SPEC,
         dict(kind='struct', file=T, name='ThreadLocalCache', rules=R1_TYPES),
         fn('get', ret='res', requires=wf_pre(M), ensures=get_ensures(M)),
         fn('move_to_end',
@@ -35,20 +36,21 @@ UNIT = dict(
         fn('remove_key_with_order', split_self=True,
            ensures=[('store_removed', ['C04', 'C08'], 'final(cache)@ == old(cache)@.remove(s2s(key))'),
                     ('queue_removed', ['C04', 'C08'], 'final(order)@ == rm1(old(order)@, s2s(key))')]),
-        fn('handle_entry_limit_eviction', split_self=True, rules=R4 + R5,
+        fn('handle_entry_limit_eviction', split_self=True,
+           hints=[(('fn_start',), 'float_axioms', 'broadcast use fl::group_float; broadcast use b_arc_min_zero; broadcast use b_tlru_min_zero; broadcast use ax_cloned_string;')], rules=R4 + R5,
            requires=evict_requires('cache', 'order'), ensures=evict_ensures('cache', 'order'),
            loops={0: dict(
                invariant_except_break=[('nothing_popped', 'cache@ == old(cache)@ && order@ == old(order)@')],
                invariant=[('wf0', 'wf(old(cache)@, old(order)@) && old(order)@.len() > 0')],
                ensures=[('front_evicted', 'evicted(old(cache)@, old(order)@, cache@, order@, old(order)@[0])')],
                decreases='order@.len()')}),
-        fn('insert', rules=R4, requires=wf_pre(M), ensures=insert_ensures(M)),
+        fn('insert', rules=R4, requires=store_pre(M), ensures=insert_ensures(M)),
         fn('insert_with_memory', impl=IMPL_MEM, impl_rules=IMPL_RULES, rules=R4 + R5,
            requires=insertm_requires(M), ensures=insertm_ensures(M),
            loops={0: memloop_spec(M, 'order', K='key')}),
-        fn('insert_result', impl=r"^impl<T: Clone \+ Debug \+ 'static, E: Clone \+ Debug \+ 'static> ThreadLocalCache<Result<T, E>>$", requires=wf_pre(M), ensures=insert_result_ensures(M)),
+        fn('insert_result', impl=r"^impl<T: Clone \+ Debug \+ 'static, E: Clone \+ Debug \+ 'static> ThreadLocalCache<Result<T, E>>$", requires=store_pre(M), ensures=insert_result_ensures(M)),
         fn('insert_result_with_memory', impl=r"MemoryEstimator,? > ThreadLocalCache<Result<T, E>>$", impl_rules=IMPL_RULES,
-           requires=wf_pre(M) + [('counters_unsaturated', 'freq_ok(old(self).%s@)' % M),
+           requires=store_pre(M) + [('counters_unsaturated', 'freq_ok(old(self).%s@)' % M),
                                  ('no_usize_overflow', 'forall|v: Result<T, E>| #[trigger] v.mem() + mem_total(old(self).%s@, old(self).order@) <= usize::MAX' % M)],
            ensures=[e for e in insert_result_ensures(M) if e[0] in ('cfg_frame', 'err_changes_nothing', 'post_wf', 'survivors_unchanged')]
                    + [('ok_stored', ['C09', 'C01'], '(value is Ok && final(self).%s@.contains_key(s2s(key))) ==> final(self).%s@[s2s(key)].value is Ok && cloned(value->Ok_0, final(self).%s@[s2s(key)].value->Ok_0)' % (M, M, M))]),
